@@ -16,7 +16,11 @@ RULE = ("same generator as C04 with 1-4 configs favoured (thorough: up to 6), 40
         "configs; distinct by (geometry, budget, config intervals); plus construction histories: the same config "
         "and sampler objects handed to 2-3 InterleavedSamplers with different main batch sizes / budgets (training "
         "sampler, eval-only sampler, ...), each iteration compared with the model of a fresh configuration, and "
-        "config attributes snapshotted before / after every step")
+        "config attributes snapshotted before / after every step; configs sharing ONE dataset object with each other / "
+        "with the main sampler (every yielded index resolved through the real concat dataset, every batch through the "
+        "collator of the config it was drawn for); kappadata's own rank-aware samplers (one rank of world_size 1..3) and "
+        "mocks with misleading effective_length / total_size / num_samples attributes as side and main samplers; "
+        "simultaneously live iterators")
 search_cases = I.search_cases
 run_impl = I.run_impl
 coq_applicable = c04.coq_applicable
@@ -86,6 +90,10 @@ def stream_oracle(case, obs):
     if msg:
         return msg
     e0 = I.start_epoch_of(case)
+    if not isinstance(e0, str) and not I.before_budget(case, e0):
+        return None  # a checkpoint at / past the budget: outside the claim
+    if not isinstance(e0, str) and obs["result"] == "RUNAWAY":
+        return f"stream does not end (more than {I.MAX_EVENTS} events or the CPU-time guard): a side pass / the run is not whole"
     if isinstance(e0, str) or obs["result"] != "ok":
         return None
     exp = I.spec_stream(case, e0, pass0=obs.get("pass0"))
@@ -105,8 +113,9 @@ def stream_oracle(case, obs):
                 return f"batch {bt} mixes datasets"
     for r in obs.get("resolve", []):
         d, j = I.ds_of(case, r[0])
-        if len(r) != 3 or r[1] != d or r[2] != [d, j]:
-            return f"index {r[0]} should resolve to dataset {d} sample {j}, concat dataset answered {r[1:]}"
+        if len(r) != 3 or r[1] != d or r[2] != [I.ds_tag(case, d), j]:
+            return (f"index {r[0]} should resolve to dataset {d} (object #{I.ds_tag(case, d)}) sample {j}, concat "
+                    f"dataset answered {r[1:]}")
     # through the real DataLoader: one dataset per batch, collated by that dataset's collator
     if case.get("loader") is not None:
         lb = obs.get("loader_batches")
